@@ -888,8 +888,8 @@ int main(int argc, char **argv) {
 			if (sv.fifo == 2) { c.ctx[1].fifo = true; }
 			uint64_t sa = ctx.seed * 104729ULL + 3, sb = 77 + v;
 			long Lb; { Run R(c, sa, sb); Lb = run_deviations(R, {}); if (blk == 0) acc.absorb(R, "sys4", 0); }
-			int stride = (int)ctx.option_l("sys4_stride", quick ? (v < 2 ? 4 : 8) : 1);
-			int npairs = (int)ctx.option_l("sys4_pairs", quick ? 1 : 10);
+			int stride = (int)ctx.option_l("sys4_stride", quick ? (v < 2 ? 4 : 8) : (v < 2 ? 1 : 2));
+			int npairs = (int)ctx.option_l("sys4_pairs", quick ? 1 : 3);
 			int ri = 1;
 			for (int k1 = blk * B; k1 < blk * B + B && k1 < Lb; k1++) {
 				if (k1 % stride) continue;
